@@ -135,10 +135,15 @@ impl tx3_tir::compile::Compiler for Compiler {
                     .into());
                 }
 
-                Ok(tir::Expression::Number(ops::slot_to_time(
-                    slot,
-                    &self.cursor,
-                )))
+                // a slot far beyond any real chain makes the timestamp leave the i128 range
+                let time = ops::checked_slot_to_time(slot, &self.cursor).ok_or_else(|| {
+                    CompileError::CoerceError(
+                        format!("{}", slot),
+                        "slot within the representable time range".to_string(),
+                    )
+                })?;
+
+                Ok(tir::Expression::Number(time))
             }
             tir::CompilerOp::ComputeTimeToSlot(x) => {
                 let time = coercion::expr_into_number(&x)?;
@@ -150,10 +155,14 @@ impl tx3_tir::compile::Compiler for Compiler {
                     .into());
                 }
 
-                Ok(tir::Expression::Number(ops::time_to_slot(
-                    time,
-                    &self.cursor,
-                )))
+                let slot = ops::checked_time_to_slot(time, &self.cursor).ok_or_else(|| {
+                    CompileError::CoerceError(
+                        format!("{}", time),
+                        "timestamp within the representable slot range".to_string(),
+                    )
+                })?;
+
+                Ok(tir::Expression::Number(slot))
             }
         }
     }
